@@ -506,8 +506,9 @@ def in16(r):
     return I16[0] <= r[0] and r[1] <= I16[1]
 
 
-def decode_all(ctx, hexes, release, wide, threads=0):
-    lines = [f"decode {h} wide={int(wide)} threads={threads}" for h in hexes]
+def decode_all(ctx, hexes, release, wide, threads=0, regions=None):
+    lines = [f"decode {h} wide={int(wide)} threads={threads}" + (f" region={','.join(map(str, regions[i]))}" if regions and regions[i] else "")
+             for i, h in enumerate(hexes)]
     return run_lines_robust([ctx.harness_bin("img", release)], lines, per_line_timeout=30)
 
 
@@ -676,34 +677,45 @@ def check_blended(ctx):
     and the float picture must be bit-identical to the one from forced wide buffers"""
     import feedlib as fl
     rng = ctx.rng
-    plans = []
-    for _ in range(24 if ctx.quick else 400):
+    plans, regs = [], []
+    for _ in range(36 if ctx.quick else 500):
         img, frames = fl.gen_multiframe(rng, overshoot=rng.choice([0, 3, 12, 40]), max_bits=12)
         img["buf16"] = True
         img["anim"] = None
+        if not img["gray"] and rng.random() < 0.35:
+            img["xyb"] = True            # the decoder's own XYB -> RGB conversion has a narrow and a wide arm
         for f in frames:
             f["dur"] = 0
             if rng.random() < 0.3:
                 f["gab"] = True
         plans.append(pl.plan_line(img, frames))
+        # a region request after loading (render handles are rebuilt from the recorded reference slots)
+        o, iw, ih = img.get("orient", 1), img["w"], img["h"]
+        W, H = (iw, ih) if o <= 4 else (ih, iw)
+        rw, rh = rng.randint(1, W), rng.randint(1, H)
+        regs.append(None if rng.random() < 0.5 else (rng.randint(0, W - rw), rng.randint(0, H - rh), rw, rh))
     encs = run_lines_robust([MODEL_EXE, "enc"], plans, per_line_timeout=90)
     rngs = run_lines_robust([MODEL_EXE, "c12"], ["range " + l for l in plans], per_line_timeout=120)
     todo = []
-    for line, e, r in zip(plans, encs, rngs):
+    for line, e, r, reg in zip(plans, encs, rngs, regs):
         if not (e and e.startswith("ok")) or not (r and r.startswith("ok")):
             ctx.count("blended:encoder-or-range-rejected")
             continue
         fits = all(t == "fits=1" for t in r.split() if t.startswith("fits="))
-        todo.append((line, e.split()[1], fits))
+        todo.append((line, e.split()[1], fits, reg))
     for release in (False, True):
-        dn = decode_all(ctx, [h for _, h, _ in todo], release, False)
-        dw = decode_all(ctx, [h for _, h, _ in todo], release, True)
-        for (line, hexs, fits), a, b in zip(todo, dn, dw):
-            ctx.case(("blended", line, release), nontrivial=True)
+        dn = decode_all(ctx, [t[1] for t in todo], release, False, regions=[t[3] for t in todo])
+        dw = decode_all(ctx, [t[1] for t in todo], release, True, regions=[t[3] for t in todo])
+        for (line, hexs, fits, reg), a, b in zip(todo, dn, dw):
+            ctx.case(("blended", line, release, reg), nontrivial=True)
             ctx.count("blended:" + ("inside" if fits else "outside") + "-hypothesis")
+            if " xyb " in line:
+                ctx.count("blended:xyb-encoded")
+            if reg:
+                ctx.count("blended:region-request-after-loading")
             a, b = a or "crash", b or "crash"
-            rep = {"plan": line, "codestream_hex": hexs, "build": "release" if release else "checked",
-                   "how": "echo 'decode <hex> wide=0|1 threads=0' | harness/target/{debug,release}/img"}
+            rep = {"plan": line, "codestream_hex": hexs, "build": "release" if release else "checked", "region": reg,
+                   "how": "echo 'decode <hex> wide=0|1 threads=0 [region=L,T,W,H]' | harness/target/{debug,release}/img"}
             if any(x.startswith(("panic", "crash")) or x == "hang" for x in (a, b)):
                 report(ctx, "decoder-panic-or-hang", {"narrow": a[:200], "wide": b[:200]}, rep, key="blended-panic:" + a.split()[0])
             elif a != b and fits:
